@@ -9,6 +9,9 @@ import NR.Emit
 import NR.SpecDriver
 import NR.Par
 import NR.Format
+import NR.Gen
+import NR.Coll
+import NR.Estimate
 namespace NR.Driver
 open NR
 
@@ -25,7 +28,13 @@ structure EmitState where
   evs    : List Emit.Ev := []   -- reversed
 deriving Inhabited
 
+structure CollSt where
+  units : Coll.Units := { kind := [], parent := [], fixed := [] }
+  st    : Coll.CState := {}
+deriving Inhabited
+
 structure State where
+  coll : CollSt := {}
   td   : TdState := {}
   sb   : SpecDriver.Builder := {}
   inst : Option Spec.Inst := none
@@ -115,8 +124,103 @@ def stepFmt (ws : List String) : String :=
     | _, _ => "bad-op"
   | _ => "bad-op"
 
+/-- `gen <n> <m> <gaps that split a direct pair of the target> <unit positions tied to their predecessor>`:
+the placements `generate` enumerates, in its order. -/
+def stepGen (ws : List String) : String :=
+  match ws with
+  | [n, m, bad, same] =>
+    match n.toNat?, m.toNat?, (if bad = "-" then some [] else parseNats? (bad.splitOn ",")),
+          (if same = "-" then some [] else parseNats? (same.splitOn ",")) with
+    | some n, some m, some bad, some same =>
+      let cs := Gen.generate n m (fun g => bad.contains g) (fun j => same.contains j)
+      if cs.isEmpty then "gen -"
+      else "gen " ++ ";".intercalate (cs.map (fun c => ".".intercalate (c.map toString)))
+    | _, _, _, _ => "bad-op"
+  | _ => "bad-op"
+
+def sortNats (l : List Nat) : List Nat := (l.toArray.qsort (· < ·)).toList
+
+def showNats (l : List Nat) : String := if l.isEmpty then "-" else ",".intercalate ((sortNats l).map toString)
+
+def parseNatsCsv (s : String) : Option (List Nat) := if s = "-" then some [] else parseNats? (s.splitOn ",")
+
+def parseField (pre : String) (w : String) : Option (List Nat) :=
+  if w.startsWith pre then parseNatsCsv ((w.drop pre.length).toString) else none
+
+def showColl (c : Coll.CState) : String :=
+  s!"R={showNats c.onRoute} P={showNats c.planned} U={showNats c.unplanned} F={showNats c.fixedC}"
+
+/-- `m:b,m:b` pairs. -/
+def parsePairs (s : String) : Option (List (Nat × Bool)) :=
+  if s = "-" then some [] else
+  allSome ((s.splitOn ",").map (fun w => match w.splitOn ":" with
+    | [m, b] => m.toNat?.map (fun m => (m, b = "1"))
+    | _ => none))
+
+def parseKind (s : String) : Option Coll.UK :=
+  if s = "s" then some .stops
+  else if s.startsWith "o" then (parseNats? (((s.drop 1).toString).splitOn ".")).map .oneOf
+  else if s.startsWith "a" then (parseNats? (((s.drop 1).toString).splitOn ".")).map .all
+  else none
+
+/-- `coll …`: the bookkeeping state machine NR.Coll replayed on the operations of the real history. -/
+def stepColl (c : CollSt) (ws : List String) : CollSt × String :=
+  match ws with
+  | ["init", kinds, parents, fixed] =>
+    match allSome ((kinds.splitOn ",").map parseKind),
+          allSome ((parents.splitOn ",").map (fun p => if p = "-" then some none else p.toNat?.map some)) with
+    | some ks, some ps =>
+      ({ units := { kind := ks, parent := ps, fixed := (fixed.splitOn ",").map (· = "1") }, st := {} }, "coll init")
+    | _, _ => (c, "bad-op")
+  | ["set", r, p, u, f] =>
+    match parseField "R=" r, parseField "P=" p, parseField "U=" u, parseField "F=" f with
+    | some r, some p, some u, some f => ({ c with st := { onRoute := r, planned := p, unplanned := u, fixedC := f } }, "coll set")
+    | _, _, _, _ => (c, "bad-op")
+  | ["execStops", u, ok] =>
+    match u.toNat? with
+    | some u => let s' := (Coll.execStops c.units c.st u (ok = "1")).1; ({ c with st := s' }, "coll " ++ showColl s')
+    | none => (c, "bad-op")
+  | ["unplanStops", u, ok] =>
+    match u.toNat? with
+    | some u => let s' := (Coll.unplanStops c.units c.st u (ok = "1")).1; ({ c with st := s' }, "coll " ++ showColl s')
+    | none => (c, "bad-op")
+  | ["execUnits", p, moves, undo] =>
+    match p.toNat?, parsePairs moves, parsePairs undo with
+    | some p, some ms, some un =>
+      let s' := (Coll.execUnits c.units c.st p ms (un.map (·.2))).1; ({ c with st := s' }, "coll " ++ showColl s')
+    | _, _, _ => (c, "bad-op")
+  | ["unplanUnits", p, bits] =>
+    match p.toNat?, parsePairs bits with
+    | some p, some bs =>
+      let s' := (Coll.unplanUnits c.units c.st p (bs.map (·.2))).1; ({ c with st := s' }, "coll " ++ showColl s')
+    | _, _ => (c, "bad-op")
+  | ["vehicleUnplan", us, ok] =>
+    match parseNatsCsv us with
+    | some us => let s' := (Coll.vehicleUnplan c.units c.st us (ok = "1")).1; ({ c with st := s' }, "coll " ++ showColl s')
+    | none => (c, "bad-op")
+  | _ => (c, "bad-op")
+
+/-- `est max <regime> <max> <base> <win> <tail> <oldCumNext> <oldLast> <hasNeg> <delta>`: the verdict of
+`maximumImpl.EstimateIsViolated` recomputed by NR.Estimate (1 = violated). -/
+def stepEst (ws : List String) : String :=
+  match ws with
+  | ["max", regime, mx, base, win, tail, ocn, ol, hn, delta] =>
+    match parseRat? mx, parseRat? base, (if win = "-" then some [] else parseRats? (win.splitOn ",")),
+          (if tail = "-" then some [] else parseRats? (tail.splitOn ",")), parseRat? ocn, parseRat? ol, parseRat? delta with
+    | some mx, some base, some win, some tail, some ocn, some ol, some delta =>
+      let v := if regime = "noeffect" then false
+        else if regime = "allnegative" then true
+        else if regime = "const" then Estimate.maxEstimateConst mx ol delta
+        else Estimate.maxEstimate mx base win tail ocn ol (hn = "1")
+      "est " ++ (if v then "1" else "0")
+    | _, _, _, _, _, _, _ => "bad-op"
+  | _ => "bad-op"
+
 def step (st : State) (line : String) : State × String :=
   match words line with
+  | "est" :: ws => (st, stepEst ws)
+  | "coll" :: ws => let (c, o) := stepColl st.coll ws; ({ st with coll := c }, o)
+  | "gen" :: ws => (st, stepGen ws)
   | "par" :: ws => (st, stepPar ws)
   | "fmt" :: ws => (st, stepFmt ws)
   | "td" :: ws => let (t, o) := stepTd st.td ws; ({ st with td := t }, o)
